@@ -65,7 +65,7 @@ fn bigexcess(kind: char, regime_beyond: bool) -> Scenario {
     let n = 1000u32;
     let grow = 800u32;
     let mut viol = Vec::new();
-    let r = with_deadline(60, move || -> (u64, u64, u64) {
+    let r = with_deadline(60, move || -> (u64, u64, u64, u64) {
         if kind == 'S' {
             let c = sc(n as u64, true);
             let clock = c.verif_install_mock_clock();
@@ -88,12 +88,15 @@ fn bigexcess(kind: char, regime_beyond: bool) -> Scenario {
                 let _ = c.get(&i);
             }
             c.sync();
+            // (measured here: maintenance runs without any write in them must have
+            // removed the excess already)
+            let held_before: u64 = c.iter().map(|e| *e.value() as u64).sum();
             // ... and so is the insert of a new key while the excess may still be there
             c.insert(5000, 1);
             c.sync();
             c.sync();
             let held: u64 = c.iter().map(|e| *e.value() as u64).sum();
-            (held, c.weighted_size(), c.entry_count())
+            (held.max(held_before), held, c.weighted_size(), c.entry_count())
         } else {
             let mut c = uc(n as u64, true);
             let _clock = c.verif_install_mock_clock();
@@ -115,18 +118,18 @@ fn bigexcess(kind: char, regime_beyond: bool) -> Scenario {
                 c.insert(5000 + i, 1);
             }
             let held: u64 = c.iter().map(|(_, v)| *v as u64).sum();
-            (held, c.weighted_size(), c.entry_count())
+            (held, held, c.weighted_size(), c.entry_count())
         }
     });
     match r {
         None => viol.push(v("C09", "scale:call-did-not-return", format!("{name}: the scenario did not finish within 60 s"), name)),
         Some(Err(p)) => viol.push(v("C08", "scale:panic", format!("{name}: {}", panic_msg(&p)), name)),
-        Some(Ok((held, ws, ec))) => {
+        Some(Ok((held, held_end, ws, ec))) => {
             if held > n as u64 {
                 viol.push(v("C04", "scale:excess-of-a-grown-entry-never-removed", format!("{name}: one entry grew from 1 to {grow} in a full cache of {n}; after 6 further maintenance runs / 16 further operations the residents still weigh {held} > max_capacity {n} (weighted_size() {ws}, entry_count() {ec})"), name));
             }
-            if held != ws {
-                viol.push(v("C10", "scale:weighted_size!=held", format!("{name}: weighted_size() {ws} but the residents weigh {held}"), name));
+            if held_end != ws {
+                viol.push(v("C10", "scale:weighted_size!=held", format!("{name}: weighted_size() {ws} but the residents weigh {held_end}"), name));
             }
         }
     }
